@@ -32,3 +32,32 @@ from bounded import c07_imports as _b7
 bounded_check(name="c07-imports", props=["C07"], fn=_b7.run_case, domain=_b7.domain, exhaustive=True, max_failures=100000, max_failures_per_chunk=100000,
               label="B3: import blocks of <= 2 statements out of 14 forms x 2 usages out of 16 x 5 actions inside a real package layout (quick: a 11-form/14-usage "
                     "sub-grid for pairs), 6 prefix-sharing scenarios and an offset-restricted organize: compiles, same printed values, __all__ exports kept, idempotent")
+
+# ---- CPython cross-check of _OneTimeSelector.__call__ (prefixes = the real dotted prefixes) ----------------------------------------------
+def _xc_sel_domain(tier, seed):
+    import itertools
+    names = ["a", "a.b", "a.b.c", "b", "ab"]
+    for r in range(0, 3):
+        for wanted in itertools.combinations(names, r):
+            for r2 in range(0, 3):
+                for selected in itertools.combinations(names, r2):
+                    for prim in names:
+                        yield (wanted, selected, prim)
+
+
+def _xc_sel_build(case):
+    from rope.refactor.importutils import module_imports
+    wanted, selected, prim = case
+    s = module_imports._OneTimeSelector(set(wanted))
+    s.selected_names = set(selected)
+    return {"self": s, "imported_primary": prim, "__dom_Str__": ["a", "a.b", "a.b.c", "b", "ab", "c"]}
+
+
+def _prefixes(p):
+    t = p.split(".")
+    return [".".join(t[:i + 1]) for i in range(len(t))]
+
+
+bounded_check(name="c07-selector-native", props=["C07"], contract="_OneTimeSelector.__call__", build=_xc_sel_build, domain=_xc_sel_domain, exhaustive=True,
+              env={"prefixes": _prefixes},
+              label="CPython cross-check: the selector's contract on the real class, every <= 2 wanted x <= 2 already provided names out of 5 x 5 imports")
